@@ -620,6 +620,15 @@ class Scheduler:
             step, state = result
             job = self._derive_job(step)
             step.set_state(state)
+            if state == StepState.RUNNING:
+                # There is no stored hash to check, so the command of this step will run,
+                # and `Executor.execute_job` resets the step before it starts the command.
+                # That is a few awaits from now, while a RUNNING creator already makes the
+                # steps it created safe to dispatch.
+                # The steps left by an earlier run are therefore detached right here:
+                # otherwise one of them can start with its old definition in the meantime,
+                # and run a second time at once if this step then defines it differently.
+                step.detach_created_steps()
             logger.debug("Derived %s job: %s", state.name.lower(), job)
             logger.info("Pop %s", job.name)
             return job
